@@ -19,15 +19,30 @@ def main(tier, replay):
     audit = vlib.lean_gate(chk, PROP)
     stats = vlib.run_differential(chk, PROP, "c18_threads", tier, flavour="omp", ctx_prefixes=("begin",))
     vlib.standard_coverage(chk, stats,
-        "OpenMP build of STIR with schedule points: scenarios tables / cache / project / loglik with fresh objects, thread counts "
-        "2,4,7 (thorough: 2..16) and 16 threads on 2 work items, seeded yields/sleeps at every schedule point; each scenario's event trace "
-        "(one line per event) is validated by the Lean trace validators (an `end` line answers ok/reject); oracle: multi-threaded results vs "
-        "single-threaded results of the same binary (forward projection 1e-5, back projection 2e-5, log-likelihood 1e-6, images 5e-5 relative to the maximum: "
-        "floating-point reassociation of per-thread partial sums; a lost or duplicated contribution changes results by O(1/threads)).",
+        "OpenMP build of STIR with schedule points; scenarios (fresh objects every time, T = 2,4,7 threads; thorough: 2..16; 16 threads on 2 work items), "
+        "seeded yields/sleeps at every schedule point: tables / cache / project / loglik; loglik_full (1..3 subsets, optional additive term, normalisation "
+        "factors, end-plane zeroing: per subset value, sub-gradient, sub-gradient+sensitivity, add_subset_sensitivity, sensitivity from set_up, "
+        "accumulate_sub_Hessian_times_input, add_multiplication_with_approximate_sub_Hessian); projdata_stream (ProjDataInterfile/ProjDataFromStream on "
+        "files written by the harness, both storage orders, and ProjDataInMemory: .io = the harness' own parallel loop of get_/set_ viewgram / sinogram / "
+        "segment calls writing disjoint regions and reading against an in-memory copy, exact; .project = forward projection into a file (every viewgram "
+        "compared with the file of the single-thread run) and back projection from a file; .loglik = the loglik_full quantities with data, additive term and "
+        "normalisation factors read from files; the single-bin accessors get_bin_value/set_bin_value only on ProjDataInMemory); scatter (SingleScatterSimulation::"
+        "process_data, 4..9 scatter points, 12..24 detectors x 1..3 rings, cache enabled and disabled). Each trace (one line per event; one trace per "
+        "distributable pass where the number of work items is known) is validated by the Lean trace validators (an `end` line answers ok/reject). "
+        "Oracle: T-thread result vs single-thread result of the same binary. Tolerances relative to the maximum of the reference: forward projection 1e-5 "
+        "(one thread per bin, no reassociation expected), back projection 2e-5, images 5e-5 (float sums of <= ~10^3 addends reassociated over per-thread images: "
+        "bound n*2^-24 ~ 6e-5 worst case, ~sqrt(n)*2^-24 typical; the gradient relative to |back projection| + |sensitivity| whose difference it is), log-likelihood "
+        "values 1e-6 (double partial sums), scatter bins bitwise (each bin is one thread's sequential sum), scatter totals 1e-12 (double reduction); "
+        "a lost or duplicated contribution of one viewgram / one bin changes results by >= 1e-3.",
         extra=dict(states=stats.get("ops", 0), transitions=stats.get("ops", 0)))
     chk.assumptions += ["protocol-level theorems only: OpenMP atomic/critical/locks are assumed to give sequentially consistent access to the flags and caches",
                         "libgomp and the hardware memory model are not modelled; data races outside the modelled protocols are visible only to the perturbed runs",
-                        "list-mode gradients and scatter simulation are not exercised by this harness yet"]
+                        "races that are benign on this hardware/compiler (a dropped `omp atomic` on an aligned float or double-free-of-effect flag writes, a dropped "
+                        "critical around a memcpy of disjoint regions) do not change results and are invisible to the comparison with the single-thread run",
+                        "ProjDataFromStream / ProjDataInMemory have no schedule points: interleavings inside their critical sections are provoked by contention "
+                        "(hundreds of short calls per thread), not forced",
+                        "list-mode gradients (PoissonLogLikelihoodWithLinearModelForMeanAndListModeDataWithProjMatrixByBin) are not exercised by this harness; "
+                        "scatter: single scatter only, output in memory, no down-sampling of scanner or image inside the simulation"]
     if audit:
         vlib.proof_coverage(chk, audit, "cd lean && lake build StirVerif stirdriver && lake env lean ../build/out/Audit_C18.lean")
     return chk.finish()
